@@ -8,8 +8,8 @@
 (***************************************************************************)
 EXTENDS Bytes
 
-B(bytes) == [t |-> "b", v |-> bytes]
-L(items) == [t |-> "l", v |-> items]
+RlpB(bytes) == [t |-> "b", v |-> bytes]
+RlpL(items) == [t |-> "l", v |-> items]
 
 \* Length header for a payload of n bytes (n a TLC integer) with offset
 \* 0x80 (strings) or 0xc0 (lists).
@@ -41,43 +41,38 @@ Enc(item) ==
 Fail(why)       == [ok |-> FALSE, why |-> why]
 Done(item, nxt) == [ok |-> TRUE, item |-> item, next |-> nxt]
 
-\* length-of-length field lb (ll bytes at p+1..p+ll): minimal, >= 56, small enough for the model
-LongLen(bs, p, ll) ==
-  IF p + ll > Len(bs) THEN Fail("truncated length")
-  ELSE LET lb == SubSeq(bs, p + 1, p + ll)
-       IN  IF lb[1] = 0 THEN Fail("length has leading zero")
-           ELSE IF ~BnFitsNat(lb) THEN Fail("length beyond model range")
-           ELSE IF BnToNat(lb) < 56 THEN Fail("long form used for short payload")
-           ELSE [ok |-> TRUE, n |-> BnToNat(lb)]
+\* Strict header at position p: [ok, kind \in {"byte","str","list"}, n (payload
+\* length), hlen (header length)].  Rejects a long form whose length field has
+\* a leading zero or is below 56, and lengths beyond the model's integers.
+Header(bs, p) ==
+  IF p > Len(bs) THEN Fail("truncated")
+  ELSE LET h == bs[p] IN
+    IF h < 128 THEN [ok |-> TRUE, kind |-> "byte", n |-> 1, hlen |-> 0]
+    ELSE IF h <= 183 THEN [ok |-> TRUE, kind |-> "str", n |-> h - 128, hlen |-> 1]
+    ELSE IF h >= 192 /\ h <= 247 THEN [ok |-> TRUE, kind |-> "list", n |-> h - 192, hlen |-> 1]
+    ELSE
+      LET ll == IF h <= 191 THEN h - 183 ELSE h - 247 IN
+      IF p + ll > Len(bs) THEN Fail("truncated length")
+      ELSE LET lb == SubSeq(bs, p + 1, p + ll) IN
+        IF lb[1] = 0 THEN Fail("length has leading zero")
+        ELSE IF ~BnFitsNat(lb) THEN Fail("length beyond model range")
+        ELSE IF BnToNat(lb) < 56 THEN Fail("long form used for short payload")
+        ELSE [ok |-> TRUE, kind |-> IF h <= 191 THEN "str" ELSE "list", n |-> BnToNat(lb), hlen |-> 1 + ll]
 
 RECURSIVE DecodeAt(_, _), DecodeItems(_, _, _)
 DecodeAt(bs, p) ==
-  IF p > Len(bs) THEN Fail("truncated")
-  ELSE LET h == bs[p] IN
-    IF h < 128 THEN Done(B(<<h>>), p + 1)
-    ELSE IF h <= 183 THEN
-      LET n == h - 128 IN
-      IF p + n > Len(bs) THEN Fail("truncated string")
-      ELSE IF n = 1 /\ bs[p + 1] < 128 THEN Fail("single byte below 0x80 wrapped in a string header")
-      ELSE Done(B(SubSeq(bs, p + 1, p + n)), p + n + 1)
-    ELSE IF h <= 191 THEN
-      LET ll == h - 183
-          ln == LongLen(bs, p, ll)
-      IN  IF ~ln.ok THEN ln
-          ELSE IF p + ll + ln.n > Len(bs) THEN Fail("truncated string")
-          ELSE Done(B(SubSeq(bs, p + ll + 1, p + ll + ln.n)), p + ll + ln.n + 1)
-    ELSE IF h <= 247 THEN
-      LET n == h - 192 IN
-      IF p + n > Len(bs) THEN Fail("truncated list")
-      ELSE LET its == DecodeItems(bs, p + 1, p + n)
-           IN  IF its.ok THEN Done(L(its.v), p + n + 1) ELSE its
-    ELSE
-      LET ll == h - 247
-          ln == LongLen(bs, p, ll)
-      IN  IF ~ln.ok THEN ln
-          ELSE IF p + ll + ln.n > Len(bs) THEN Fail("truncated list")
-          ELSE LET its == DecodeItems(bs, p + ll + 1, p + ll + ln.n)
-               IN  IF its.ok THEN Done(L(its.v), p + ll + ln.n + 1) ELSE its
+  LET hd == Header(bs, p) IN
+  IF ~hd.ok THEN hd
+  ELSE IF hd.kind = "byte" THEN Done(RlpB(<<bs[p]>>), p + 1)
+  ELSE
+    LET first == p + hd.hlen            \* first payload position
+        last  == p + hd.hlen + hd.n - 1
+    IN  IF last > Len(bs) THEN Fail("truncated payload")
+        ELSE IF hd.kind = "str" THEN
+          (IF hd.n = 1 /\ bs[first] < 128 THEN Fail("single byte below 0x80 wrapped in a string header")
+           ELSE Done(RlpB(SubSeq(bs, first, last)), last + 1))
+        ELSE LET its == DecodeItems(bs, first, last)
+             IN  IF its.ok THEN Done(RlpL(its.v), last + 1) ELSE its
 
 \* items filling positions p..end exactly
 DecodeItems(bs, p, end) ==
